@@ -96,19 +96,7 @@ func (e *Enc) call(f *frame, c *ssa.CallCommon, instr *ssa.Call, pos token.Pos) 
 					for i, a := range args {
 						env.names[fmt.Sprintf("arg%d", i+1)] = TV{V: a, Ty: c.Signature().Params().At(i).Type()}
 					}
-					label := ca.Clause.Label
-					if label == "" {
-						label = "a"
-					}
-					n0 := len(e.obls)
-					e.oblige("pre", fmt.Sprintf("%s/at.%s#%d.%s", f.name, disp, n, label), e.evalBool(env, ca.Clause), pos)
-					if len(e.obls) > n0 {
-						e.obls[n0].Env = env
-						e.obls[n0].ClauseText = ca.Clause.Text
-					}
-					if e.dry == 0 {
-						f.assertsSeen[fmt.Sprintf("%s#%d", disp, n)] = true
-					}
+					e.callAssert(f, disp, n, ca, env, pos)
 				}
 			}
 		}
@@ -127,6 +115,21 @@ func (e *Enc) call(f *frame, c *ssa.CallCommon, instr *ssa.Call, pos token.Pos) 
 
 	switch fv := c.Value.(type) {
 	case *ssa.Builtin:
+		if f.con != nil && len(f.con.CallAsserts) > 0 {
+			// call-site assertions on builtins (copy, append): "copy#n"
+			disp := fv.Name()
+			n := f.ncallAll[disp]
+			f.ncallAll[disp]++
+			for _, ca := range f.con.CallAsserts {
+				if ca.Callee == disp && ca.N == n && !ca.After {
+					env := e.cellEnv(f, pos, e.cur.clone())
+					for i, a := range args {
+						env.names[fmt.Sprintf("arg%d", i)] = TV{V: a, Ty: c.Args[i].Type()}
+					}
+					e.callAssert(f, disp, n, ca, env, pos)
+				}
+			}
+		}
 		return e.builtin(f, fv.Name(), c, args, pos)
 	case *ssa.Function:
 		return e.callStatic(f, fv, args, nil, pos, pack, freshResults)
@@ -208,19 +211,7 @@ func (e *Enc) callStatic0(f *frame, fn *ssa.Function, args []Val, bind []Val, po
 						env.names[fmt.Sprintf("arg%d", i)] = TV{V: a, Ty: fn.Params[i].Type()}
 					}
 				}
-				label := ca.Clause.Label
-				if label == "" {
-					label = "a"
-				}
-				n0 := len(e.obls)
-				e.oblige("pre", fmt.Sprintf("%s/at.%s#%d.%s", f.name, disp, n, label), e.evalBool(env, ca.Clause), pos)
-				if len(e.obls) > n0 {
-					e.obls[n0].Env = env
-					e.obls[n0].ClauseText = ca.Clause.Text
-				}
-				if e.dry == 0 {
-					f.assertsSeen[fmt.Sprintf("%s#%d", disp, n)] = true
-				}
+				e.callAssert(f, disp, n, ca, env, pos)
 			}
 		}
 	}
@@ -359,8 +350,10 @@ func (e *Enc) evalLets(env *Env, con *Contract) {
 		func() {
 			defer func() {
 				if r := recover(); r != nil {
-					if ee, ok := r.(evalError); ok {
-						e.errs = append(e.errs, fmt.Sprintf("%s:%d: let %s: %s", l.File, l.Line, l.Label, ee.msg))
+					if _, ok := r.(evalError); ok {
+						// a let over names that do not exist here (locals of the
+						// function at a call site, ...) stays undefined: a clause
+						// that uses it reports the unknown name
 						return
 					}
 					panic(r)
@@ -995,4 +988,30 @@ func (e *Enc) callSel(f *frame, sel FnSel, args []Val, pos token.Pos, pack func(
 		return ra
 	}
 	return e.nameVal(e.iteVal(reachA, ra, rb), "selres")
+}
+
+// callAssert: one "at_call <callee>#n assert label: e" at its call site. A
+// label ending in "!" is proved and then assumed (a stepping stone for the
+// obligations that follow); such a clause never combines with a known finding.
+func (e *Enc) callAssert(f *frame, disp string, n int, ca CallAssert, env *Env, pos token.Pos) {
+	label := ca.Clause.Label
+	if label == "" {
+		label = "a"
+	}
+	stone := strings.HasSuffix(label, "!")
+	label = strings.TrimSuffix(label, "!")
+	n0 := len(e.obls)
+	g := e.evalBool(env, ca.Clause)
+	e.oblige("pre", fmt.Sprintf("%s/at.%s#%d.%s", f.name, disp, n, label), g, pos)
+	if len(e.obls) > n0 {
+		e.obls[n0].Env = env
+		e.obls[n0].ClauseText = ca.Clause.Text
+		e.obls[n0].NoFinding = stone
+	}
+	if stone {
+		e.assume(g)
+	}
+	if e.dry == 0 {
+		f.assertsSeen[fmt.Sprintf("%s#%d", disp, n)] = true
+	}
 }
